@@ -33,7 +33,15 @@ META = {
                   "1..3, map-iteration nondeterminism resolved by TLC as a set of allowed behaviours) is replayed on the real wrappers over "
                   "cache.NewMockCache() in a synctest bubble; replies (bytes exactly), errors and the full backend content are compared after "
                   "every operation. Placement: JumpHash.tla decided for all jump sets x all pairs of lists over N names; recorded PickServer "
-                  "results of the real selector (lists of 1..65 names in naturally sorted, byte-wise sorted, reversed, rotated and shuffled input order, 5 address formats) validated by TLC.",
+                  "results of the real selector (lists of 1..65 names in naturally sorted, byte-wise sorted, reversed, rotated and shuffled input order, 5 address formats) validated by TLC. "
+                  "Extension round 3: GetMulti (named step 'getplain') next to GetMultiWithError and Stop (named action Stop, clause StopIsInert) on every stack, in the transition "
+                  "cover and in the scripts; the in-process backends MockCache / InstrumentedMockCache / ErroringMockCache(nil), NewSnappy vs NewCompression(CompressionConfig), "
+                  "Name(), read options handed down to the backend, and ~300 concrete byte strings for the model values (all 1-2 byte strings over snappy's tag/varint bytes, sizes "
+                  "around 16, 60, 256 and the 64 KiB block boundary, truncated/nested snappy blocks) rotated by seed. Placement: names listed several times (Dups; NatSort keeps "
+                  "duplicates), SetServers SEQUENCES on one long-lived selector (grow, shrink from the middle, reorder, duplicates, two/one/no servers: any list of at most |universe| "
+                  "names is decided by the jump sets learnt so far), an unresolvable SetServers changes nothing, Each stops at the first error. Negative controls: TLC must refute "
+                  "a clause of C19 on 6 deliberately wrong wrapper models (MC_neg.cfg) and 2 wrong selectors (MC_jh_neg.cfg); JumpHashMC ASSUMEs reachability witnesses for the "
+                  "implication-shaped clauses.",
     "level_note": "Backend failures: every client operation may find the backend failing (environment choice; the driver stacks the real "
                   "wrappers over the mock behind a switch that makes the chosen call return an error and do nothing); clauses FailedReadIsLocal "
                   "(GetMultiWithError returns exactly the local hits and the error iff the backend was needed), FailedWriteKeepsBackend, "
@@ -43,7 +51,9 @@ META = {
                   "the fault config. FailedSetInvisible (MC_faults_finding.cfg, not in the tiers) is violated by LRUCache.Set. Trusted: TLC; the mock backend (cache.MockCache) as the backend's semantics; the driver's mapping of model values/keys/versions to "
                   "concrete bytes (empty, 1 byte, 64 KiB compressible, 64 KiB random, a valid snappy block) and of numbered server names to integers "
                   "(natural order of the generated names = numeric order by construction). Encode/decode fidelity is exercised on those byte strings "
-                  "only. A sequential client; asynchronous memcached writes and real network backends are out of scope.",
+                  "only. A sequential client; asynchronous memcached writes and real network backends are out of scope. Not modelled: a backend whose reads take time (SlowMockCache: "
+                  "back-fill uses the clock at call start; with instantaneous reads that is indistinguishable from the clock at back-fill time), a backend read that returns "
+                  "data AND an error (ErroringMockCache with a non-nil error), MockCache.Flush. Read options and Name() are driver-side comparisons (no clause of C19).",
     "technique": "TLA+ specification (CacheStack.tla, JumpHash.tla) model-checked by TLC; TLC-generated behaviours replayed into the real code; "
                  "traces recorded from the real selector validated by TLC",
     "design_ref": "DESIGN.md 2 C19",
@@ -55,7 +65,12 @@ STACKS = {1: [], 2: ["lru"], 3: ["ver"], 4: ["snappy"], 5: ["lru", "ver"], 6: ["
           15: ["snappy", "lru", "ver"], 16: ["snappy", "ver", "lru"], 17: ["lru", "lru"], 18: ["lru", "ver", "lru"]}
 
 CORE_ACTIONS = ("SetOp", "SetMultiOp", "AddOp", "GetOp", "DeleteOp", "Advance", "AdvanceOp", "PokeOp")
-VARIANT_ACTIONS = ("SetAsyncOp", "SetMulti1Op")
+VARIANT_ACTIONS = ("SetAsyncOp", "SetMulti1Op", "GetPlainOp", "StopOp")
+# deliberately wrong models (CONSTANT Wrong) -> the clauses of C19 of which TLC has to refute one
+NEG_STACK = [("expiry_ge", {"NeverAfterDeadline"}), ("delete_keeps_local", {"NeverAfterDelete", "NeverWrong"}),
+             ("add_always_local", {"NeverWrong", "AddSemantics", "NeverAfterDelete", "NeverAfterDeadline"}), ("backfill_long", {"NeverAfterDeadline"}),
+             ("no_version", {"NoAlias", "NeverWrong", "NeverAfterDelete", "AddSemantics"}), ("decode_passthrough", {"NeverCorrupt"})]
+NEG_JH = [("nosort", {"OrderInsensitive"}), ("offbyone", {"AppendStable"})]
 PROPS = ["NeverWrong", "NeverAfterDelete", "NeverAfterDeadline", "NeverCorrupt", "ReadIsPeek", "NoAlias", "AddSemantics"]
 
 
@@ -91,8 +106,8 @@ def gen_scripts(path, seed, n, depth):
                 ks = rnd.sample(keys[:nk], rnd.choice([1, 1, 2, nk]))
                 ttl = rnd.choice([1, 1, 1, 2, 2, 3, 3, 0, -1])        # TTL <= 0: stored already expired
                 fail = rnd.random() < 0.10                            # the backend call of this operation fails
-                if x < 0.30:
-                    ops.append({"name": "get", "w": w, "keys": ks, "vals": [], "ttl": 0, "fail": fail})
+                if x < 0.30:       # GetMultiWithError, or GetMulti (the error is logged, not returned)
+                    ops.append({"name": "get" if rnd.random() < 0.65 else "getplain", "w": w, "keys": ks, "vals": [], "ttl": 0, "fail": fail})
                 elif x < 0.42:
                     ops.append({"name": "set", "w": w, "keys": ks[:1], "vals": [rnd.choice(vals)], "ttl": ttl, "fail": fail})
                 elif x < 0.48:
@@ -103,6 +118,8 @@ def gen_scripts(path, seed, n, depth):
                     ops.append({"name": "add", "w": w, "keys": ks[:1], "vals": [rnd.choice(vals)], "ttl": ttl, "fail": fail})
                 elif x < 0.80:
                     ops.append({"name": "delete", "w": w, "keys": ks[:1], "vals": [], "ttl": 0, "fail": fail})
+                elif x < 0.83:
+                    ops.append({"name": "stop", "w": w, "keys": [], "vals": [], "ttl": 0, "fail": False})
                 elif x < 0.95 or "snappy" not in kinds:
                     ops.append({"name": "advance", "w": 0, "keys": [], "vals": [], "ttl": rnd.choice([1, 1, 1, 2, 3]), "fail": False})
                 else:
@@ -121,6 +138,27 @@ def sort_by_sid(src, dst):
         for _, line in rows:
             f.write(line)
     return len({r[0] for r in rows})
+
+
+def negative_controls(ctx, quick, scale):
+    """TLC must REFUTE a clause of C19 on each deliberately wrong model (otherwise the clauses would be vacuous on the
+    universe). quick: two wrapper models and one selector model, rotated by seed; thorough: all of them."""
+    stack, sel = NEG_STACK, NEG_JH
+    if quick:
+        stack = [NEG_STACK[(ctx.seed + j) % len(NEG_STACK)] for j in (0, 3)]
+        sel = [NEG_JH[ctx.seed % len(NEG_JH)]]
+    done = []
+    for module, cfg, controls in (("CacheStack", "MC_neg.cfg", stack), ("JumpHashMC", "MC_jh_neg.cfg", sel)):
+        for wrong, expect in controls:
+            r = ctx.tlc("cache", module, cfg=cfg, subst={"@@WRONG@@": wrong}, workers=workers() or 4, timeout=600 * scale,
+                        deadlock=False, count=False)
+            # which clause TLC reports first may depend on the order in which it checks them: any clause of C19 qualifies,
+            # `expect` (the clause the wrong model is aimed at) is recorded for information
+            if r.timed_out or r.error or r.violated not in (set(PROPS) | {"OrderInsensitive", "AppendStable", "PickInList"}):
+                incon("negative control %s/%s: TLC was expected to refute a clause of C19 (aimed at %s), got violated=%s timed_out=%s error=%s" % (
+                    module, wrong, sorted(expect), r.violated, r.timed_out, (r.error or "")[:200]))
+            done.append("%s->%s%s" % (wrong, r.violated, "" if r.violated in expect else " (aimed at %s)" % "/".join(sorted(expect))))
+    ctx.extra["negative_controls_refuted"] = ", ".join(done)
 
 
 # ---------------------------------------------------------------------------------------------- main
@@ -148,7 +186,7 @@ def run(ctx):
                   ("MC_views.cfg", {"@@STACKS@@": allv, "@@MAXOPS@@": 3, "@@CAPS@@": "{1, 2}"}),
                   ("MC_views.cfg", {"@@STACKS@@": shared, "@@MAXOPS@@": 4, "@@CAPS@@": "{1}"}),
                   # backend failures as an environment choice per operation, TTL 0 (measured: 2,632,780 transitions)
-                  ("MC_faults.cfg", {"@@STACKS@@": "{1, 2, 8}", "@@TTLS@@": "{0, 1, 2}", "@@MAXOPS@@": 3})]
+                  ("MC_faults.cfg", {"@@STACKS@@": "{1, 2, 7, 8}", "@@TTLS@@": "{0, 1, 2}", "@@MAXOPS@@": 3})]
     for n, (cfg, subst) in enumerate(decide if "decide" in phases else []):
         cov = (not quick) and n < 2          # vacuity guard on the first two thorough configs (coverage costs time)
         r = ctx.tlc("cache", "CacheStack", cfg=cfg, subst=subst or None, workers=workers(), timeout=(2400 if not quick else 300) * scale,
@@ -159,9 +197,13 @@ def run(ctx):
             if zero:
                 incon("%s: actions with zero coverage: %s" % (cfg, zero))
     if "decide" in phases:
-        r = ctx.tlc("cache", "JumpHash", cfg="MC_jh_quick.cfg" if quick else "MC_jh_thorough.cfg", workers=workers(),
-                    timeout=600 * scale, deadlock=False)
-        ctx.require_tlc_ok(r, "JumpHash")
+        # JumpHashMC = JumpHash + ASSUMEd reachability witnesses (sort matters, a key moves, a key stays, a duplicate owns two buckets)
+        jh = [("MC_jh_quick.cfg", None), ("MC_jh_dups.cfg", {"@@N@@": 3})] if quick else \
+             [("MC_jh_thorough.cfg", None), ("MC_jh_dups.cfg", {"@@N@@": 4})]
+        for cfg, subst in jh:
+            r = ctx.tlc("cache", "JumpHashMC", cfg=cfg, subst=subst, workers=workers(), timeout=900 * scale, deadlock=False)
+            ctx.require_tlc_ok(r, "JumpHash " + cfg)
+        negative_controls(ctx, quick, scale)
 
     # 2. spec -> code: transition cover ---------------------------------------------------------------
     covers = ["MC_cover_quick.cfg"] if quick else ["MC_cover_quick.cfg", "MC_cover_single.cfg", "MC_cover_views.cfg"]
